@@ -53,9 +53,13 @@ def lift_case_st(draw):
     ua, ub, rel = draw(vs.unit_pairs())
     dt = draw(st.sampled_from(vs.DTYPES))
     if group == "logic":
+        # masks, or integer / float flags (numpy's logical functions take any non-zero value as true)
+        ldt = draw(st.sampled_from(["bool", "bool", "bool", "int64", "float64"]))
+        lval = st.booleans() if ldt == "bool" else (st.integers(0, 3) if ldt == "int64" else st.sampled_from([0.0, 1.0, 2.0, 0.5]))
+
         def bvec(n, shape):
-            return {"k": "V", "comps": [{"k": "A", "dtype": "bool", "shape": shape, "unit": "dimensionless",
-                                         "vals": draw(st.lists(st.booleans(), min_size=vs.nelem(shape),
+            return {"k": "V", "comps": [{"k": "A", "dtype": ldt, "shape": shape, "unit": "dimensionless",
+                                         "vals": draw(st.lists(lval, min_size=vs.nelem(shape),
                                                                max_size=vs.nelem(shape)))} for _ in range(n)]}
         op = draw(st.sampled_from(["&", "|", "^", "~"]))
         v = bvec(nvec, sa)
@@ -64,11 +68,11 @@ def lift_case_st(draw):
         if rk == "V":
             rhs = bvec(n2, sb)
         elif rk == "num":
-            rhs = {"k": "num", "v": draw(st.booleans())}
+            rhs = {"k": "num", "v": draw(lval)}
         else:
-            rhs = {"k": rk, "dtype": "bool", "shape": sb, "unit": "dimensionless",
-                   "vals": draw(st.lists(st.booleans(), min_size=vs.nelem(sb), max_size=vs.nelem(sb)))}
-        return {"group": group, "op": op, "v": v, "rhs": rhs}
+            rhs = {"k": rk, "dtype": ldt, "shape": sb, "unit": "dimensionless",
+                   "vals": draw(st.lists(lval, min_size=vs.nelem(sb), max_size=vs.nelem(sb)))}
+        return {"group": group, "op": op, "v": v, "rhs": rhs, "logic_dtype": ldt}
     v = draw(vs.vector_specs(units=[ua], dtypes=[dt], shape=sa, nvec=nvec, specials=(group == "cmp")))   # NaN compares false
     case = {"group": group, "v": v}
     if group == "unary":
@@ -330,6 +334,8 @@ def lifting(case, r):
     nvec = len(case["v"]["comps"])
     comps = list(v._xyz.values())
     r.label("group_" + group, f"nvec_{nvec}")
+    if case.get("logic_dtype") and case["logic_dtype"] != "bool":
+        r.label("logic_on_non_boolean_flags")
     rhs = vs.build(case["rhs"], osyris) if "rhs" in case else None
     rk = case["rhs"]["k"] if "rhs" in case else None
     if rk:
